@@ -229,6 +229,20 @@ def nested_specs():
     return out
 
 
+W2 = ["w", "w n", "n w", "w+", "w n?", "n? w", "t", "n"]
+
+
+def nested_specs2():
+    """Same wrapper type `w` below two different parents with different constraints on its siblings:
+    doc > (p1 | p2) > w > t.  All combinations are well-founded (n, t are leaves)."""
+    out = []
+    for e1, e2 in itertools.product(W2, W2):
+        for dexpr in ("(p1 | p2)+", "(p2 | p1)+", "p1 p2*"):
+            out.append({"doc": {"content": dexpr}, "p1": {"content": e1}, "p2": {"content": e2}, "w": {"content": "t+"},
+                        "n": {}, "t": {}, "text": {}})
+    return out
+
+
 def wrap_tables(spec):
     V = SpecView(spec)
     types = list(spec["nodes"].keys())
@@ -317,6 +331,8 @@ def direct_wrap(p):
     solver.set("timeout", 30000)
     if p["what"] == "nested":
         specs = [({"nodes": n}, "nested#%d" % i) for i, n in enumerate(nested_specs())][p["lo"]:p["hi"]]
+    elif p["what"] == "nested2":
+        specs = [({"nodes": n}, "nested2#%d" % i) for i, n in enumerate(nested_specs2())][p["lo"]:p["hi"]]
     else:
         specs = [(schemas.spec_of(sn), sn) for sn in p["schemas"]]
     for spec, label in specs:
@@ -388,6 +404,11 @@ def obligations(tier, seed):
     for lo in range(0, nn, step):
         obs.append({"name": "wrap/nested/%d" % lo, "fn": "direct_wrap", "kind": "direct",
                     "P": {"what": "nested", "lo": lo, "hi": lo + step}, "timeout": 900})
+    n2 = len(nested_specs2())
+    step2 = 16 if tier == "quick" else 8
+    for lo in range(0, n2, step2):
+        obs.append({"name": "wrap/nested2/%d" % lo, "fn": "direct_wrap", "kind": "direct",
+                    "P": {"what": "nested2", "lo": lo, "hi": lo + step2}, "timeout": 900})
     for sn in ("basic", "list", "strict", "title", "iso", "table", "fixed"):
         obs.append({"name": "wrap/catalogue/" + sn, "fn": "direct_wrap", "kind": "direct",
                     "P": {"what": "catalogue", "schemas": [sn]}, "timeout": 900})
